@@ -103,10 +103,11 @@ PROPS = {
         ],
     },
     "C06": {
-        "gen": ["Numeric"],
-        "thm_module": "NutsModel.Thm.FlowSched",
+        "gen": ["Numeric", "Adapt"],
+        "thm_module": "NutsModel.Thm.C06Adapt",
         "namespace": "NutsModel.Sched",
         "theorems": [
+            "adapt_refines_schedStep",
             "step_after_warmup", "step_final_window", "step_mass_phase", "transformation_frozen",
             "stepsize_frozen_after_warmup", "last_uses_average", "tuning_step", "tuning_flag_exact",
             "any_num_tune_constructs", "nextWindow_grows",
@@ -127,15 +128,17 @@ PROPS = {
                  "with Model/FlowSchedule.lean (which draws re-fit the transformation); same direct oracle. "
                  "distinct_nontrivial = chains with >= 2 window switches + flow chains with at least one re-fit."),
         "trusted": [
+            "C06: GlobalStrategy::adapt is TRANSLATED from src/adapt_strategy.rs on every run (Gen/Adapt.lean); its two sub-strategies are interface objects (Model/AdaptIface.lean: estimator contents as sample-id lists, adapt() changes iff the foreground holds >= 3 samples; step-size strategy = log of the calls it receives) -- the same abstraction as the hand model; theorem adapt_refines_schedStep proves the generated function equal to the hand model schedStep (state, parameters, order and arguments of the step-size calls) for every state, draw number and oracle, so the schedule theorems hold for the code as translated",
             "C06: Model/Schedule.lean (GlobalStrategy::adapt, single-assignment transcription) and Model/FlowSchedule.lean (ExternalTransformAdaptation::adapt) are hand-written and tied by per-draw correspondence: hook counters for the former, tuning flags and transformation index (public statistics) for the latter",
             "C06: that Progress is built after adapt in both chains is checked on real runs (tuning-count oracle), not a theorem",
         ],
     },
     "C09": {
-        "gen": ["Numeric"],
-        "thm_module": "NutsModel.Thm.Sched",
+        "gen": ["Numeric", "Adapt"],
+        "thm_module": "NutsModel.Thm.C06Adapt",
         "namespace": "NutsModel.Sched",
         "theorems": [
+            "adapt_refines_schedStep",
             "step_mass_phase", "switch_condition", "late_iff", "final_window_symmetric", "rejected_not_counted",
             "step_mass_reinit", "reinit_iff", "window_monotone", "nextWindow_grows", "fresh_step", "no_stale_draws",
         ],
@@ -146,6 +149,7 @@ PROPS = {
                  "early/late choice must reproduce the observed dual-averaging / Adam state bit-exactly). "
                  "distinct_nontrivial = chains with >= 2 window switches."),
         "trusted": [
+            "C09: GlobalStrategy::adapt is TRANSLATED from src/adapt_strategy.rs on every run (Gen/Adapt.lean); its two sub-strategies are interface objects (Model/AdaptIface.lean: estimator contents as sample-id lists, adapt() changes iff the foreground holds >= 3 samples; step-size strategy = log of the calls it receives) -- the same abstraction as the hand model; theorem adapt_refines_schedStep proves the generated function equal to the hand model schedStep (state, parameters, order and arguments of the step-size calls) for every state, draw number and oracle, so the schedule theorems hold for the code as translated",
             "C09: estimator contents are modelled as lists of sample ids (which draws are inside), not their numeric values; that both estimators (two running-variance pairs / deque with background_split) realise exactly these contents is checked through their counts on every draw",
         ],
     },
@@ -383,7 +387,7 @@ PROPS = {
         "thm_module": "NutsModel.Thm.C05Run",
         "namespace": "NutsModel.C05",
         "theorems": ["all_kinds", "leap_classification", "good_is_ok", "unrecoverable_is_err", "trajectory_fault_diverges",
-                     "trajectory_zero_grad_fine", "trial_fault_discarded", "bad_initial_point_rejected", "init_untransformed_rejects",
+                     "trajectory_zero_grad_fine", "trial_fault_discarded", "bad_initial_point_rejected", "energy_jump_diverges", "energy_jump_elsewhere", "init_untransformed_rejects",
                      "set_position_outcomes", "nonfatal_fault_never_fails", "nonfatal_fault_never_fails_partial", "reinit_fault_discarded",
                      "Tree.draw_fault_spec", "Tree.fault_stops_trajectory", "Tree.divergence_reported", "Tree.divergence_genuine",
                      "Tree.unrecoverable_is_err", "Tree.no_fault_no_report", "Tree.returned_state_valid",
